@@ -169,7 +169,7 @@ pub fn settle_violations(
             continue;
         }
         new_violations += 1;
-        if reported < 64 {
+        if reported < 12 {
             reported += 1;
             let m = minimise(first);
             let path = write_replay(cfg, &m);
